@@ -1748,7 +1748,14 @@ bool TypeChecker::isTypeAssignableFromOtherType(
                         && isNULLPointerConstant(node)))));
 }
 
-SyntaxVisitor::Action TypeChecker::visitSequencingExpression(const SequencingExpressionSyntax*) { return Action::Skip; }
+SyntaxVisitor::Action TypeChecker::visitSequencingExpression(const SequencingExpressionSyntax* node)
+{
+    // The result has the type and value of the right operand (6.5.17-2).
+    VISIT(node->left());
+    VISIT(node->right());
+
+    return typeChecked(node, valueTypeOf(ty_));
+}
 SyntaxVisitor::Action TypeChecker::visitExtGNU_ChooseExpression(const ExtGNU_ChooseExpressionSyntax*) { return Action::Skip; }
 
 //------------//
